@@ -170,6 +170,50 @@ int main(int argc, char* argv[])
             auto all = s5.sample(values, grads);
             std::sort(all.begin(), all.end());
             vt::put(vt::J("Sample").s("kind", "without").a("input", vec(input)).i("count", n).a("sel", vec(all)).a("zero", std::vector<int64_t>{}));
+            // the sampler objects are stateful (generator, weight buffer) and are asked once per boosting round: further calls on the
+            // SAME objects with other losses / gradients (other zero patterns: what had weight zero may have weight now and vice versa)
+            for (int64_t call = 1; call <= 2; ++call)
+            {
+                zl.clear();
+                zg.clear();
+                for (tensor_size_t s = 0; s <= input.max(); ++s)
+                {
+                    // second call: mostly the complement of the first zero pattern; third call: a fresh one
+                    const auto wasl = values(1, s) == 0.0, wasg = grads(s) == 0.0;
+                    values(0, s)    = rng.uniform(0.0, 1.0);
+                    values(1, s)    = (call == 1 ? (!wasl && rng.coin(4, 5)) : rng.coin(1, 2)) ? 0.0 : rng.uniform(0.1, 2.0);
+                    grads(s)        = (call == 1 ? (!wasg && rng.coin(4, 5)) : rng.coin(1, 2)) ? 0.0 : rng.uniform(-2.0, 2.0);
+                }
+                values(1, input(call % n)) = 0.5;
+                grads(input(call % n))     = -0.5;
+                for (int64_t k = 0; k < n; ++k)
+                {
+                    if (values(1, input(k)) == 0.0)
+                    {
+                        zl.push_back(input(k));
+                    }
+                    if (grads(input(k)) == 0.0)
+                    {
+                        zg.push_back(input(k));
+                    }
+                }
+                vt::put(vt::J("Sample").s("kind", "without").a("input", vec(input)).i("count", expected).a("sel", vec(s1.sample(values, grads))).a("zero", std::vector<int64_t>{}).i("call", call));
+                vt::put(vt::J("Sample").s("kind", "with").a("input", vec(input)).i("count", expected).a("sel", vec(s2.sample(values, grads))).a("zero", std::vector<int64_t>{}).i("call", call));
+                vt::put(vt::J("Sample").s("kind", "weighted").a("input", vec(input)).i("count", expected).a("sel", vec(s3.sample(values, grads))).a("zero", zl).i("call", call));
+                vt::put(vt::J("Sample").s("kind", "weighted").a("input", vec(input)).i("count", expected).a("sel", vec(s4.sample(values, grads))).a("zero", zg).i("call", call));
+                auto again = s5.sample(values, grads);
+                std::sort(again.begin(), again.end());
+                vt::put(vt::J("Sample").s("kind", "without").a("input", vec(input)).i("count", n).a("sel", vec(again)).a("zero", std::vector<int64_t>{}).i("call", call));
+            }
+        }
+        // the overloads without a generator argument (they seed their own): the clauses that do not depend on the seed
+        {
+            vt::put(vt::J("Sample").s("kind", "without").a("input", vec(input)).i("count", count).a("sel", vec(sample_without_replacement(input, count))).a(
+                "zero", std::vector<int64_t>{}).s("overload", "seedless"));
+            vt::put(vt::J("Sample").s("kind", "with").a("input", vec(input)).i("count", count2).a("sel", vec(sample_with_replacement(input, count2))).a(
+                "zero", std::vector<int64_t>{}).s("overload", "seedless"));
+            vt::put(vt::J("Sample").s("kind", "weighted").a("input", vec(input)).i("count", count2).a("sel", vec(sample_with_replacement(input, weights, count2))).a(
+                "zero", zero).s("overload", "seedless"));
         }
         // ball
         {
@@ -184,6 +228,37 @@ int main(int argc, char* argv[])
             // up to the rounding of x0 + delta: |x0| eps per coordinate
             const auto slack = radius * 1e-12 + 4e-16 * x0.lpNorm<2>();
             vt::put(vt::J("Ball").i("dim", dim).b("dimOK", x.size() == dim).b("inside", (x - x0).lpNorm<2>() <= radius + slack));
+            // the other three overloads: own generator; writing into a caller's buffer (a window of a larger one: nothing outside of
+            // the window may be written, every element of the window is)
+            const auto xs = sample_from_ball(x0, radius);
+            vt::put(vt::J("Ball").i("dim", dim).b("dimOK", xs.size() == dim).b("inside", xs.all_finite() && (xs - x0).lpNorm<2>() <= radius + slack).s("overload", "seedless"));
+            for (int variant = 0; variant < 2; ++variant)
+            {
+                const auto          guard = std::numeric_limits<double>::quiet_NaN();
+                std::vector<double> buffer(static_cast<size_t>(dim) + 6U, guard);
+                auto                window = map_tensor(buffer.data() + 3, dim);
+                if (variant == 0)
+                {
+                    sample_from_ball(x0, radius, window, srng);
+                }
+                else
+                {
+                    sample_from_ball(x0, radius, window);
+                }
+                bool     guardOK = true, filled = true;
+                vector_t xw(dim);
+                for (int64_t k = 0; k < dim; ++k)
+                {
+                    xw(k)  = buffer[static_cast<size_t>(k) + 3U];
+                    filled = filled && std::isfinite(xw(k));
+                }
+                for (size_t k = 0; k < 3U; ++k)
+                {
+                    guardOK = guardOK && std::isnan(buffer[k]) && std::isnan(buffer[buffer.size() - 1U - k]);
+                }
+                vt::put(vt::J("BallMap").i("dim", dim).b("seeded", variant == 0).b("filled", filled).b("guardOK", guardOK).b(
+                    "inside", filled && (xw - x0).lpNorm<2>() <= radius + slack));
+            }
         }
     }
     vt::put(vt::J("Ball").i("dim", 0).b("dimOK", true).b("inside", true));
